@@ -1753,7 +1753,7 @@ def c15(ctx):
     ctx.rule = ("(a) every well-formed request of the grammar in HttpParse.tla (3 methods x targets of <= 3 segments from "
                 "{a, .., empty, b.c} with/without leading slash and 3 query forms x <= 2 header lines from 5 forms with case and "
                 "whitespace variants and duplicates) with the result the statement demands, computed by the specification; "
-                "(b) every string over {SP, ':', CR, LF, '/', 'a'} up to length 6 (7 in the thorough tier) with FindLen from the "
+                "(b) every string over {SP, ':', CR, LF, '/', 'a'} up to length 6 (8 in the thorough tier) with FindLen from the "
                 "specification; (c) every prefix of a sample of the well-formed requests and random mutations; each input is "
                 "parsed in an exactly sized heap block under ASan and again flush against a PROT_NONE page; non-trivial = "
                 "well-formed request with a '..' segment or a duplicate header, or a string containing CR LF; distinct by input")
@@ -1762,7 +1762,8 @@ def c15(ctx):
     f1 = ctx.path("hp_wf.ndjson")
     vlib.tlc_gen(ctx, "HttpParse.tla", "Gen_HttpParse_wf.cfg", f1, timeout=900)
     f2 = ctx.path("hp_str.ndjson")
-    vlib.tlc_gen(ctx, "HttpParse.tla", "Gen_HttpParse_str.cfg" if q else "Gen_HttpParse_str_t.cfg", f2, timeout=1500)
+    vlib.tlc_gen(ctx, "HttpParse.tla", "Gen_HttpParse_str.cfg" if q else "Gen_HttpParse_str_8.cfg", f2, timeout=2400,
+                 extra=("-maxSetSize", "4000000"))
     rng = random.Random(ctx.seed)
     f3 = ctx.path("hp_mut.ndjson")
     wf = [json.loads(l) for k, l in enumerate(open(f1)) if k % 211 == 0]
